@@ -329,7 +329,7 @@ def check_C03(ctx):
 
 def check_C04(ctx):
     planner_family(ctx, "C04", qdeps=1)
-    exec_family(ctx, "C04", extra=["--modes", "disp,par,seq,tlonly,disp", "--ptl", 0.1, "--ppanic", 0.15], mc=("tl", "batch"),
+    exec_family(ctx, "C04", extra=["--modes", "disp,par,seq,tlonly,disp", "--ptl", 0.1, "--ppanic", 0.15, "--pool1", 0.15], mc=("tl", "batch"),
                 mc_thorough=("flat2", "deps", "batchseq"))
 
 
@@ -379,12 +379,12 @@ def check_C11(ctx):
 
 def check_C12(ctx):
     # InvC04x belongs here too: a thread-local system that is silently not run violates "run ... in registration order"
-    exec_family(ctx, "C12", extra=["--ptl", 0.2, "--modes", "disp,disp,tlonly,seq", "--pnest", 0.06], mc=("tl",))
+    exec_family(ctx, "C12", extra=["--ptl", 0.2, "--modes", "disp,disp,tlonly,seq", "--pnest", 0.06, "--pool1", 0.2], mc=("tl",))
     exec_scenarios(ctx, TRACE_INVS["C12"], KF1_PROGS, "thread-local system inside a batch")
     # async dispatcher: thread-local systems only inside wait(), on the caller, every wait
     out = ctx.fresh("as", "ndjson")
     st = run_bin(ctx, "exec", ["async", "--seed", ctx.seed * 1000 + 7, "--count", 50 if ctx.quick() else 500, "--calls", 12,
-                               "--ptl", 0.3, "--out", out], timeout=1800)
+                               "--ptl", 0.3, "--ppanic", 0.2, "--out", out], timeout=1800)
     ctx.cov["impl_runs"].append({"kind": "impl->spec async dispatcher sessions with thread-local systems", "programs": st["programs"],
                                  "calls": st["calls"], "events": st["events"]})
     ctx.cov["traces_validated_against_impl"] += st["programs"]
